@@ -129,6 +129,8 @@ def build_backend(world, backend, scratch, name="m"):
     linked = {}
     for e, fs in world.get("linked", []):
         linked.setdefault(_tup(e), []).extend(_tup(f) for f in fs)
+    if backend == "scan":
+        return ScanMap(name, nodes, latlon)
     if backend in ("inmem", "inmem_api", "pickle"):
         if backend == "inmem_api":
             m = InMemMap(name, use_latlon=latlon, use_rtree=False, index_edges=False,
@@ -174,7 +176,59 @@ def build_backend(world, backend, scratch, name="m"):
     raise ValueError(backend)
 
 
+class ScanMap(BaseMap):
+    """A user-written map as the documentation invites ("write your own map class"): a plain dictionary,
+    spatial queries by full scan with the metric functions BaseMap binds, and the inherited default
+    `BaseMap.edges_nbrto`.  Its spatial queries are complete, unlike InMemMap's prefiltered edge query."""
+
+    def __init__(self, name, nodes, use_latlon):
+        super().__init__(name, use_latlon=use_latlon)
+        self.loc = {l: p for l, p, _ in nodes}
+        self.nb = {l: list(nb) for l, _, nb in nodes}
+
+    def bb(self):
+        ys, xs = zip(*self.loc.values())
+        return min(ys), min(xs), max(ys), max(xs)
+
+    def labels(self):
+        return list(self.loc)
+
+    def size(self):
+        return len(self.loc)
+
+    def node_coordinates(self, node_key):
+        return self.loc[node_key]
+
+    def all_nodes(self, bb=None):
+        return [(l, p) for l, p in self.loc.items()]
+
+    def all_edges(self, bb=None):
+        return [(a, self.loc[a], b, self.loc[b]) for a, nb in self.nb.items() for b in nb if b in self.loc]
+
+    def nodes_closeto(self, loc, max_dist=None, max_elmt=None):
+        res = sorted((self.distance(loc, p), l, p) for l, p in self.loc.items())
+        res = [r for r in res if max_dist is None or r[0] < max_dist]
+        return res[:max_elmt] if max_elmt is not None else res
+
+    def edges_closeto(self, loc, max_dist=None, max_elmt=None):
+        res = []
+        for a, nb in self.nb.items():
+            for b in nb:
+                if b == a or b not in self.loc:
+                    continue
+                d, pi, ti = self.distance_point_to_segment(loc, self.loc[a], self.loc[b])
+                if max_dist is None or d < max_dist:
+                    res.append((d, a, self.loc[a], b, self.loc[b], pi, ti))
+        res.sort(key=lambda r: (r[0], repr(r[1]), repr(r[3])))
+        return res[:max_elmt] if max_elmt is not None else res
+
+    def nodes_nbrto(self, node):
+        return [(b, self.loc[b]) for b in self.nb.get(node, []) if b in self.loc]
+
+
 def reopen_backend(m, backend, scratch, name="m"):
+    if isinstance(m, ScanMap):
+        return m
     if isinstance(m, SqliteMap):
         m.db.close()
         return SqliteMap.from_file(os.path.join(scratch, name + ".sqlite"))
